@@ -4,9 +4,9 @@ import simprops
 import vlib
 
 ID = "C09"
-IMPORTS = ["CaresProps.C09"]
+IMPORTS = ["CaresProps.C09", "CaresProps.C09Runs"]
 DRIVER_MODULES = ["Driver.SimMain"]
-LEAN_TARGETS = ["CaresProps.C09", "driver_sim"]
+LEAN_TARGETS = ["CaresProps.C09", "CaresProps.C09Runs", "driver_sim"]
 THEOREMS = vlib.discover_theorems("CaresProps/C09.lean")
 TRUSTED = [
     "Lean 4.33.0 kernel; axioms allowed: propext, Classical.choice, Quot.sound",
